@@ -7,7 +7,39 @@ A_F = 'f32 arithmetic is uninterpreted in Verus: equalities are between terms (s
 A_E1 = 'A-E1: extraction desugarings (listed under coverage.desugarings) preserve semantics'
 A_T1 = 'A-T1: Verus/Z3, Kani/CBMC and rustc are sound'
 
+A_GA1 = 'A-GA1: generic_array::GenericArray<T,N> behaves as [T; N::USIZE]'
+A_DENSE = 'dense.rs operations enter through their contracts, each proved in group `dense` (C19)'
+A_STD1 = 'A-STD1: AsRef<..>::as_ref of the argument types is a pure view'
+A_MEM = 'A-MEM: side conditions `rows * columns <= usize::MAX` / `length + C + 32 <= usize::MAX` (addressable memory) appear as preconditions'
+
 PROPS = {
+    'C01': {
+        'verus': ['scores', 'score', 'pwm_score', 'seq', 'stripe'],
+        'kani': [],
+        'native': False,
+        'assumptions': [A_E1, A_T1, A_GA1, A_DENSE, A_STD1, A_MEM,
+                        'A-F0/A-F1: the generic kernel is proved for every element type whose `+=` never panics and is a function of its operands; f32 is such a type (floats are otherwise uninterpreted: the contract fixes the left-to-right summation order, so "within summation error" holds by construction)',
+                        'SIMD backends (avx2.rs, sse2.rs) are NOT covered by the Verus proof: bounded Kani stand-ins only (coverage.bounded); neon.rs is not compiled on this host'],
+        'explanation': 'kernel contract (value in cell (r,c) = left-to-right sum over the window read down column c) + layout lemma (cell (rho, c) holds the symbol at linear position c*R+rho) + iterator contracts (exactly min(max_index, R*C) = L-M+1 values, value i = cell (i mod R, i div R)) = theorem_c01',
+    },
+    'C07': {
+        'verus': ['maxthr', 'scores'],
+        'kani': [],
+        'native': False,
+        'assumptions': [A_E1, A_T1, A_GA1, A_DENSE,
+                        'A-F2: the order hypothesis ord_ok (reflexive, total, transitive `>=` on the cells) is PROVED for u8 (lemma_u8_ord_ok) and ASSUMED for f32 matrices without NaN',
+                        'AVX2 / SSE2 max, argmax kernels: bounded Kani stand-ins only'],
+        'explanation': 'generic Maximum::argmax / max and Threshold::threshold on verbatim bodies: None iff empty; designated cell dominates every cell; threshold list = exactly the cells >= t, strictly increasing in row-major order (hence no duplicates)',
+    },
+    'C08': {
+        'verus': ['score_u8', 'pwm_score'],
+        'kani': [],
+        'native': False,
+        'assumptions': [A_E1, A_T1, A_GA1, A_DENSE, A_STD1,
+                        'A-F4: ceil / floor / division in ScoringMatrix::to_discrete and DiscreteMatrix::scale are treated as mathematical (their f32 rounding is not proved conservative) - the float half of C08 is assumed, only the integer half is proved',
+                        'the u8 kernel contract carries a no-overflow precondition (sum of the window cells <= 255); whether callers meet it is finding D5'],
+        'explanation': 'integer half: the generic u8 kernel and DiscreteMatrix::score_position return exactly the integer sum of the discretised cells provided that sum fits a byte',
+    },
     'C19': {
         'verus': ['dense'],
         'kani': [],
